@@ -34,6 +34,7 @@
 -/
 import EasyMl.Lemmas.RecordContainer
 import EasyMl.Lemmas.RecordContainerTape
+import EasyMl.Lemmas.RecordContainerHistory
 
 namespace EasyMl.C06
 open EasyMl EasyMl.RC
@@ -720,6 +721,291 @@ theorem container_cross_tape_rejected (a b : Cont R) (w : World R) (h h' : Nat)
 
 example : (⟨[("r", 1), ("c", 1)], [((2 : ℚ), 0)], some 0⟩ : Cont ℚ).history = some 0 ∧ (0 : ℕ) ≠ 1 :=
   ⟨rfl, by decide⟩
+
+/-! ## Shapes and histories through whole programs
+
+What the generator sections "assign forms × pairings × follow-up uses" and "producer → consumer
+pairs" sample, for every program: a container that is the result of any sequence of operations
+— allocating, in place, multiplications, `reset` — is the same container (shape, numbers, tape,
+positions) as the one built element by element, so whatever consumes it next sees the same
+operand. -/
+
+/-- After a two-operand assign form (`binary_left_assign`, `binary_right_assign`, the `do_*`
+    variants) the overwritten container is on a tape exactly when either operand was, and on that
+    operand's tape (the left one's if both were — they are then the same); the one-operand assign
+    form keeps the history.  Shapes are untouched. -/
+theorem assign_history (op : BOp R) (a b c' : Cont R) (w w' : World R) (ha : a.WF) (hb : b.WF) :
+    (a.binaryLeftAssign b op.fns.1 op.fns.2.1 op.fns.2.2 w = .ok (c', w') →
+        c'.history = Cont.pickHistory a.history b.history ∧ c'.shape = a.shape
+          ∧ (c'.history.isSome ↔ (a.history.isSome ∨ b.history.isSome)))
+      ∧ (a.binaryRightAssign b op.fns.1 op.fns.2.1 op.fns.2.2 w = .ok (c', w') →
+        c'.history = Cont.pickHistory a.history b.history ∧ c'.shape = b.shape
+          ∧ (c'.history.isSome ↔ (a.history.isSome ∨ b.history.isSome)))
+      ∧ (∀ (u : UOp R), ((a.unaryAssign u.fns.1 u.fns.2 w).1.history = a.history
+          ∧ (a.unaryAssign u.fns.1 u.fns.2 w).1.shape = a.shape)) := by
+  have hpick : ∀ x y : Option Nat,
+      ((Cont.pickHistory x y).isSome ↔ (x.isSome ∨ y.isSome)) := by
+    intro x y; cases x <;> cases y <;> simp [Cont.pickHistory]
+  refine ⟨?_, ?_, ?_⟩
+  · intro h
+    rw [binaryLeftAssign_eq] at h
+    cases hbin : a.binary b op.fns.1 op.fns.2.1 op.fns.2.2 w with
+    | panic k => rw [hbin] at h; cases h
+    | ok r =>
+      obtain ⟨c0, w0⟩ := r
+      have hspec := binary_ok_spec a b _ _ _ w ha hb c0 w0 hbin
+      rw [hbin] at h
+      simp only [Outcome.map] at h
+      injection h with h; injection h with h1 _; subst h1
+      exact ⟨hspec.2.2.2, rfl, by simp only [hspec.2.2.2]; exact hpick _ _⟩
+  · intro h
+    rw [binaryRightAssign_eq] at h
+    cases hbin : a.binary b op.fns.1 op.fns.2.1 op.fns.2.2 w with
+    | panic k => rw [hbin] at h; cases h
+    | ok r =>
+      obtain ⟨c0, w0⟩ := r
+      have hspec := binary_ok_spec a b _ _ _ w ha hb c0 w0 hbin
+      rw [hbin] at h
+      simp only [Outcome.map] at h
+      injection h with h; injection h with h1 _; subst h1
+      exact ⟨hspec.2.2.2, rfl, by simp only [hspec.2.2.2]; exact hpick _ _⟩
+  · intro u
+    rw [unaryAssign_eq a _ _ w ha.const_zero]
+    exact ⟨(unary_shape a _ _ w).2, rfl⟩
+
+example : (Cont.pickHistory (none : Option Nat) (some 3)).isSome = true := by decide
+
+/-- One instruction of a container program — a constructor, an allocating operator, a
+    multiplication, `reset`, an assign form — run by the container code on well-formed
+    containers gives the containers (shape and records: numbers, tapes, positions), the tapes and
+    the panic that the same instruction gives element by element; and the containers stay well
+    formed. -/
+theorem history_step_eq_elementwise (i : CInstr R) (hv : i.Valid) (cs : List (Cont R)) (w : World R)
+    (hwf : AllWF cs) :
+    (i.stepModel cs w).map absState = i.stepSpec (cs.map Cont.abs) w
+      ∧ ∀ cs' w', i.stepModel cs w = .ok (cs', w') → AllWF cs' := by
+  cases i with
+  | vars h shape vals =>
+    obtain ⟨hlen, hne⟩ := hv
+    constructor
+    · have key := variables_eq h shape vals w hlen
+      simp only [asRecs, Prod.ext_iff] at key
+      simp only [CInstr.stepModel, CInstr.stepSpec, Outcome.map, absState, List.map_append,
+        List.map_cons, List.map_nil, Cont.abs, ← key.1, ← key.2]
+      simp [Cont.variables]
+    · intro cs' w' h
+      simp only [CInstr.stepModel] at h
+      injection h with h; injection h with h1 _; subst h1
+      exact allWF_append hwf (((container_wf w).1 shape vals hlen hne).2 h)
+  | consts shape vals =>
+    obtain ⟨hlen, hne⟩ := hv
+    constructor
+    · simp only [CInstr.stepModel, CInstr.stepSpec, Outcome.map, absState, List.map_append,
+        List.map_cons, List.map_nil, Cont.abs]
+      simp [Cont.constants, toRecs_eq, recsOf, Rec.constant, List.map_map, Function.comp_def]
+    · intro cs' w' h
+      simp only [CInstr.stepModel] at h
+      injection h with h; injection h with h1 _; subst h1
+      exact allWF_append hwf ((container_wf w).1 shape vals hlen hne).1
+  | un op a =>
+    simp only [CInstr.stepModel, CInstr.stepSpec, abs_get]
+    cases hc : cs[a]? with
+    | none => exact ⟨rfl, fun _ _ h => by cases h⟩
+    | some c =>
+      have hcw := allWF_get hwf a c hc
+      constructor
+      · have key := unary_eq c op.fns.1 op.fns.2 w
+        simp only [asRecs, Prod.ext_iff] at key
+        simp only [Option.map_some, Outcome.map, absState, List.map_append, List.map_cons,
+          List.map_nil, Cont.abs, uop_container_eq, uop_scalar_fun, ← key.1, ← key.2,
+          (unary_shape c op.fns.1 op.fns.2 w).1]
+      · intro cs' w' h
+        injection h with h; injection h with h1 _; subst h1
+        exact allWF_append hwf ((container_wf w).2.1 op c hcw)
+  | bin op a b =>
+    simp only [CInstr.stepModel, CInstr.stepSpec, abs_get]
+    cases hx : cs[a]? with
+    | none => exact ⟨rfl, fun _ _ h => by cases h⟩
+    | some x =>
+      cases hy : cs[b]? with
+      | none => exact ⟨rfl, fun _ _ h => by cases h⟩
+      | some y =>
+        have hxw := allWF_get hwf a x hx
+        have hyw := allWF_get hwf b y hy
+        simp only [Option.map_some, Cont.abs]
+        by_cases hs : x.shape = y.shape
+        · rw [if_neg (not_not.mpr hs)]
+          have key := binary_eq x y op.fns.1 op.fns.2.1 op.fns.2.2 w hs hxw.nonempty hyw.nonempty
+          rw [bop_container_eq, bop_scalar_fun]
+          cases hbin : x.binary y op.fns.1 op.fns.2.1 op.fns.2.2 w with
+          | panic k =>
+            rw [hbin] at key
+            simp only [Outcome.map] at key
+            rw [← key]
+            exact ⟨rfl, fun _ _ h => by cases h⟩
+          | ok r =>
+            obtain ⟨c0, w0⟩ := r
+            have hspec := binary_ok_spec x y _ _ _ w hxw hyw c0 w0 hbin
+            rw [hbin] at key
+            simp only [Outcome.map, asRecs] at key
+            rw [← key]
+            constructor
+            · simp [Outcome.map, absState, Cont.abs, hspec.2.2.1]
+            · intro cs' w' h
+              simp only [Outcome.map] at h
+              injection h with h; injection h with h1 _; subst h1
+              exact allWF_append hwf hspec.1
+        · rw [if_pos hs, bop_container_eq, binary_shape_mismatch x y _ _ _ w hs]
+          exact ⟨rfl, fun _ _ h => by cases h⟩
+  | matmulT a b =>
+    simp only [CInstr.stepModel, CInstr.stepSpec, abs_get]
+    cases hx : cs[a]? with
+    | none => exact ⟨rfl, fun _ _ h => by cases h⟩
+    | some x =>
+      cases hy : cs[b]? with
+      | none => exact ⟨rfl, fun _ _ h => by cases h⟩
+      | some y =>
+        have hxw := allWF_get hwf a x hx
+        have hyw := allWF_get hwf b y hy
+        simp only [Option.map_some]
+        rw [← matmulTensor_eq_spec x y w hxw hyw]
+        cases hm : x.matmulTensor y w with
+        | panic k => exact ⟨rfl, fun _ _ h => by cases h⟩
+        | ok r =>
+          obtain ⟨c0, w0⟩ := r
+          constructor
+          · simp [Outcome.map, absState]
+          · intro cs' w' h
+            simp only [Outcome.map] at h
+            injection h with h; injection h with h1 _; subst h1
+            exact allWF_append hwf ((container_wf_matmul x y c0 w w0 hxw hyw).1 hm)
+  | matmulM a b =>
+    simp only [CInstr.stepModel, CInstr.stepSpec, abs_get]
+    cases hx : cs[a]? with
+    | none => exact ⟨rfl, fun _ _ h => by cases h⟩
+    | some x =>
+      cases hy : cs[b]? with
+      | none => exact ⟨rfl, fun _ _ h => by cases h⟩
+      | some y =>
+        have hxw := allWF_get hwf a x hx
+        have hyw := allWF_get hwf b y hy
+        simp only [Option.map_some]
+        rw [← matmulMatrix_eq_spec x y w hxw hyw]
+        cases hm : x.matmulMatrix y w with
+        | panic k => exact ⟨rfl, fun _ _ h => by cases h⟩
+        | ok r =>
+          obtain ⟨c0, w0⟩ := r
+          constructor
+          · simp [Outcome.map, absState]
+          · intro cs' w' h
+            simp only [Outcome.map] at h
+            injection h with h; injection h with h1 _; subst h1
+            exact allWF_append hwf ((container_wf_matmul x y c0 w w0 hxw hyw).2 hm)
+  | reset a =>
+    simp only [CInstr.stepModel, CInstr.stepSpec, abs_get]
+    cases hc : cs[a]? with
+    | none => exact ⟨rfl, fun _ _ h => by cases h⟩
+    | some c =>
+      have hcw := allWF_get hwf a c hc
+      constructor
+      · have key := reset_eq c w hcw.length_eq
+        simp only [asRecs, Prod.ext_iff] at key
+        have hshape : (c.reset w).1.shape = c.shape := by
+          unfold Cont.reset; cases c.history <;> rfl
+        simp only [Option.map_some, Outcome.map, absState, List.map_set, Cont.abs, ← key.1,
+          ← key.2, hshape]
+      · intro cs' w' h
+        injection h with h; injection h with h1 _; subst h1
+        exact allWF_set hwf a (reset_wf c w hcw)
+  | unAssign op a =>
+    simp only [CInstr.stepModel, CInstr.stepSpec, abs_get]
+    cases hc : cs[a]? with
+    | none => exact ⟨rfl, fun _ _ h => by cases h⟩
+    | some c =>
+      have hcw := allWF_get hwf a c hc
+      constructor
+      · have key := unary_eq c op.fns.1 op.fns.2 w
+        simp only [asRecs, Prod.ext_iff] at key
+        simp only [Option.map_some]
+        rw [unaryAssign_eq c _ _ w hcw.const_zero]
+        simp only [Outcome.map, absState, List.map_set, Cont.abs,
+          uop_scalar_fun, ← key.1, ← key.2]
+        simp [toRecs_eq]
+      · intro cs' w' h
+        injection h with h; injection h with h1 _; subst h1
+        exact allWF_set hwf a (unaryAssign_wf c _ _ w hcw)
+  | leftAssign op a b =>
+    simp only [CInstr.stepModel, CInstr.stepSpec, abs_get]
+    cases hx : cs[a]? with
+    | none => exact ⟨rfl, fun _ _ h => by cases h⟩
+    | some x =>
+      cases hy : cs[b]? with
+      | none => exact ⟨rfl, fun _ _ h => by cases h⟩
+      | some y =>
+        have hxw := allWF_get hwf a x hx
+        have hyw := allWF_get hwf b y hy
+        simp only [Option.map_some, Cont.abs]
+        rw [binaryLeftAssign_eq]
+        by_cases hs : x.shape = y.shape
+        · rw [if_neg (not_not.mpr hs)]
+          have key := binary_eq x y op.fns.1 op.fns.2.1 op.fns.2.2 w hs hxw.nonempty hyw.nonempty
+          rw [bop_scalar_fun]
+          cases hbin : x.binary y op.fns.1 op.fns.2.1 op.fns.2.2 w with
+          | panic k =>
+            rw [hbin] at key
+            simp only [Outcome.map] at key
+            rw [← key]
+            exact ⟨rfl, fun _ _ h => by cases h⟩
+          | ok r =>
+            obtain ⟨c0, w0⟩ := r
+            have hspec := binary_ok_spec x y _ _ _ w hxw hyw c0 w0 hbin
+            rw [hbin] at key
+            simp only [Outcome.map, asRecs] at key
+            rw [← key]
+            constructor
+            · simp [Outcome.map, absState, Cont.abs, List.map_set, toRecs_eq]
+            · intro cs' w' h
+              simp only [Outcome.map] at h
+              injection h with h; injection h with h1 _; subst h1
+              refine allWF_set hwf a ⟨?_, hspec.1.nonempty, hspec.1.const_zero⟩
+              have := hspec.1.length_eq
+              rw [hspec.2.2.1] at this
+              exact this
+        · rw [if_pos hs, binary_shape_mismatch x y _ _ _ w hs]
+          exact ⟨rfl, fun _ _ h => by cases h⟩
+
+/-- **Histories through programs.**  Any program of container operations — constructors,
+    allocating operators, both multiplications, `reset`, the in-place forms, each consuming the
+    results of earlier ones — run on well-formed containers ends with the containers, tapes and
+    panic the same program ends with when every container is a list of scalar records and every
+    operation is done element by element.  In particular each result's history is `Some` exactly
+    when the element-by-element records are on a tape. -/
+theorem history_eq_elementwise (prog : List (CInstr R)) (hv : ∀ i ∈ prog, i.Valid)
+    (cs : List (Cont R)) (w : World R) (hwf : AllWF cs) :
+    (runModel prog cs w).map absState = runSpec prog (cs.map Cont.abs) w
+      ∧ ∀ cs' w', runModel prog cs w = .ok (cs', w') → AllWF cs' := by
+  induction prog generalizing cs w with
+  | nil =>
+    refine ⟨rfl, ?_⟩
+    intro cs' w' h
+    simp only [runModel] at h
+    injection h with h; injection h with h1 _; subst h1
+    exact hwf
+  | cons i rest ih =>
+    have hstep := history_step_eq_elementwise i (hv i (List.mem_cons_self ..)) cs w hwf
+    simp only [runModel, runSpec]
+    rw [← hstep.1]
+    cases hm : i.stepModel cs w with
+    | panic k => exact ⟨rfl, fun _ _ h => by cases h⟩
+    | ok r =>
+      obtain ⟨cs1, w1⟩ := r
+      simp only [Outcome.map, absState]
+      exact ih (fun j hj => hv j (List.mem_cons_of_mem _ hj)) cs1 w1 (hstep.2 cs1 w1 hm)
+
+example : (CInstr.vars 0 [("r", 1), ("c", 2)] [(2 : ℚ), 3]).Valid := by
+  refine ⟨by decide, by simp⟩
+
+example : AllWF ([] : List (Cont ℚ)) := fun _ h => by cases h
 
 /-! ### the pinned commit: what the repairs change (kernel evaluation on concrete witnesses) -/
 
